@@ -581,6 +581,14 @@ func cmpNestedJSON(exp any, j any) bool {
 
 // describe renders an expected / observed value for descriptions and replay files.
 func describe(v any) string {
+	s := describe1(v)
+	if len(s) > 260 {
+		s = s[:260] + "...(" + strconv.Itoa(len(s)) + " chars)"
+	}
+	return s
+}
+
+func describe1(v any) string {
 	switch x := v.(type) {
 	case nil:
 		return "NULL"
@@ -627,13 +635,13 @@ func describe(v any) string {
 	case eList:
 		p := []string{}
 		for _, e := range x {
-			p = append(p, describe(e))
+			p = append(p, describe1(e))
 		}
 		return "[" + strings.Join(p, ", ") + "]"
 	case oList:
 		p := []string{}
 		for _, e := range x {
-			p = append(p, describe(e))
+			p = append(p, describe1(e))
 		}
 		return "[" + strings.Join(p, ", ") + "]"
 	case eStruct:
@@ -644,13 +652,13 @@ func describe(v any) string {
 		sort.Strings(keys)
 		p := []string{}
 		for _, k := range keys {
-			p = append(p, k+": "+describe(x[k]))
+			p = append(p, k+": "+describe1(x[k]))
 		}
 		return "{" + strings.Join(p, ", ") + "}"
 	case oStruct:
 		p := []string{}
 		for _, f := range x {
-			p = append(p, f.name+": "+describe(f.v))
+			p = append(p, f.name+": "+describe1(f.v))
 		}
 		return "{" + strings.Join(p, ", ") + "}"
 	case oOther:
